@@ -30,18 +30,18 @@ def flat_src(n):
     walk(n, vis)
     return ''.join(parts)
 
-# zips accepted without a length test: (function, left list, right list) -> reason
+# zips accepted without a dominating length test, keyed by what the two sides iterate (origins computed on the MIR: the
+# function a collection is the result of, or the field path it is read from -- no local names): (function, A, B) -> reason
 ZIP_OK = {
-    ('common_type', 'a_bind', 'b_bind'): 'XNative generic lists of the same NativeType (a == b checked just above): arity fixed by the type, checked in get_complete_type',
-    ('bind_in_assignment', 'a_bind', 'b_bind'): 'XNative generic lists of the same NativeType (a == b checked just above)',
-    ('common_type', 'a.generics_with_bind(bind_a)', 'b.generics_with_bind(bind_b)'): 'both lists come from generics_with_bind of the same spec (a == b checked just above): one entry per generic name',
-    ('bind_in_assignment', 'a.generics_with_bind(bind_a)', 'b.generics_with_bind(bind_b)'): 'both lists come from generics_with_bind of the same spec (a == b checked just above)',
-    ('common_type', 'a.generic_names', 'a.generics_with_bind(bind_a).iter().zip(b.generics_with_bind(bind_b).iter())'): 'generic names zipped with the per-name lists built from them (generics_with_bind yields one entry per name)',
-    ('resolve_bind', 'a.generic_names()', 'a_bind'): 'XNative arity is fixed by the NativeType (checked in get_complete_type)',
-    ('resolve_bind', 'spec.generic_names', 'types'): 'XTail arguments are checked against the compound\'s arity when the recursive reference is resolved by get_complete_type (same GenericParamCountMismatch check)',
-    ('from_parent', 'parameter_names', 'recourse_spec.params.iter().map(|p|p.type_.clone())'): 'parameter names and the spec are built together from the same parameter list by parse_function_header',
-    ('get_complete_type', 't.generic_names.iter().cloned()', 'gen_params.into_iter()'): 'guarded by the GenericParamCountMismatch test on the same two lists a few lines above',
-    ('from_parent_lambda', 'param_names', 'param_specs.iter().map(|s|s.type_.clone())'): 'built together by multiunzip from one parameter list',
+    ('common_type', 'call:XCompoundSpec::generics_with_bind', 'call:XCompoundSpec::generics_with_bind'): 'both lists come from generics_with_bind of the same spec (a == b checked just above): one entry per generic name',
+    ('bind_in_assignment', 'call:XCompoundSpec::generics_with_bind', 'call:XCompoundSpec::generics_with_bind'): 'both lists come from generics_with_bind of the same spec (a == b checked just above)',
+    ('common_type', 'field:Compound.1.generic_names', 'call:Iterator::zip'): 'generic names zipped with the per-name lists built from them (generics_with_bind yields one entry per name)',
+    ('common_type', 'field:XNative.1', 'field:XNative.1'): 'XNative generic lists of the same NativeType (a == b checked just above): arity fixed by the type, checked in get_complete_type',
+    ('bind_in_assignment', 'field:XNative.1', 'field:XNative.1'): 'XNative generic lists of the same NativeType (a == b checked just above)',
+    ('resolve_bind', 'call:NativeType::generic_names', 'field:XNative.1'): 'XNative arity is fixed by the NativeType (checked in get_complete_type)',
+    ('resolve_bind', 'field:Some.0.Compound.1.generic_names', 'field:XTail.0'): "XTail arguments are checked against the compound's arity when the recursive reference is resolved by get_complete_type (same GenericParamCountMismatch check)",
+    ('from_parent', 'param:2', 'call:Iterator::map'): 'parameter names and the spec are built together from the same parameter list by parse_function_header',
+    ('parse_expr', 'call:Itertools::multiunzip', 'call:Iterator::map'): 'lambda parameter names and specs are built together by multiunzip from one parameter list',
 }
 
 # which payload structs each arm of the hand-written equality compares; the fields to read are *all* fields of these structs
@@ -192,59 +192,8 @@ def run(ctx):
 
     # ---------------- R04.2 zips
     r2 = ctx.rule('R04.2', 'every zip of two runtime-length lists is preceded by a length test on the same lists')
-    all_list = sorted(((f, fn['name'], fn['line']), fn) for f, fn, im in astq.all_fns(ast) if f in (XT, CSF, 'src/parser.rs'))
-    for (f, name, _ln), fn in all_list:
-        if f not in (XT, CSF) and not (f == 'src/parser.rs' and name in ('get_complete_type',)):
-            continue
-        for z, ps in find_nodes(fn['body'], lambda y: y.get('k') == 'mcall' and y['method'] == 'zip'):
-            def base(e):
-                # strip iterator plumbing to get at the list expression
-                s0 = flat_src(e)
-                s0 = re.sub(r'(\.iter\(\)|\.into_iter\(\)|\.iter_mut\(\)|\.cloned\(\)|\.copied\(\)|\.rev\(\))+$', '', s0)
-                if s0.startswith('(') and s0.endswith(')'):
-                    s0 = s0[1:-1]
-                return s0
-            left = base(z['recv'])
-            right = base(z['args'][0]) if z['args'] else '?'
-            # enumerate()/0.. ranges on one side never truncate the other
-            if re.match(r'^\d+\.\.$', left) or re.match(r'^\d+\.\.$', right) or 'search_iter' in right:
-                continue
-            # the enclosing unit: nearest match arm body, else the function
-            unit = fn['body']
-            for p in ps:
-                if p.get('k') == 'match':
-                    for a in p['arms']:
-                        if find_nodes(a['body'], lambda y: y is z):
-                            unit = a['body']
-            # length tests in the unit located before the zip
-            tests = []
-            for c, cps in find_nodes(unit, lambda y: y.get('k') == 'if'):
-                if c['line'] <= z['line']:
-                    tests.append(flat_src(c['cond']))
-            for c, cps in find_nodes(unit, lambda y: y.get('k') == 'binary' and y['op'] in ('==', '!=', '<', '>', '<=', '>=')):
-                if c['line'] <= z['line']:
-                    tests.append(flat_src(c))
-            lw = re.sub(r'^&', '', left)
-            rw = re.sub(r'^&', '', right)
-
-            def mentions_len(t, w):
-                w2 = w.split('.generics_with_bind')[0]
-                return (w + '.len()') in t or (w.replace('.iter()', '') + '.len()') in t
-            guarded = any(mentions_len(t, lw) and mentions_len(t, rw) for t in tests)
-            # arity windows: arg_len_range of both sides / min..max of the spec against args.len()
-            if not guarded:
-                win = [t for t in tests if re.search(r'(a_min|b_min|a_max|b_max|min|max)', t)]
-                if win and ('params' in lw or 'params' in rw or 'param_types' in lw):
-                    guarded = True
-            key = (name, lw, rw)
-            listed = key in ZIP_OK
-            ok = guarded or listed
-            r2.inst({'fn': name, 'left': lw[:60], 'right': rw[:60], 'length_test': guarded, 'listed': listed}, ok=ok, kind=key)
-            if listed and not guarded:
-                r2.exempted('%s: zip(%s, %s)' % key, ZIP_OK[key])
-            if not ok:
-                r2.fail('%s/zip/%s~%s' % (name, lw[:40], rw[:40]), '%s:%d' % (f, z['line']), 'zip of `%s` and `%s` without a preceding length test on both: a shorter list silently truncates the comparison (mismatched arities are accepted)' % (lw, rw))
-    r2.need(15)
+    r5 = ctx.rule('R04.5', 'the two sides of a zip in the type relations iterate in the same direction')
+    zip_guards(ctx, r2, r5)
     # variant constructor: exactly one argument before taking it
     comp = fns.get((CSF, 'compile'))
     if comp:
@@ -259,31 +208,6 @@ def run(ctx):
             r2.fail('anchor/variant-ctor', CSF, 'variant constructor site not found')
 
     # ---------------- R04.5 zip partners iterate in the same direction
-    r5 = ctx.rule('R04.5', 'the two sides of a zip in the type relations iterate in the same direction')
-    for (f, name, _ln), fn in all_list:
-        if f != XT:
-            continue
-        for z, ps in find_nodes(fn['body'], lambda y: y.get('k') == 'mcall' and y['method'] == 'zip'):
-            def revs(e):
-                # reversals applied to this side only (not inside a nested zip's own operands)
-                n = 0
-                cur = e
-                while cur.get('k') in ('mcall', 'paren'):
-                    if cur.get('k') == 'paren':
-                        cur = cur['expr']
-                        continue
-                    if cur['method'] == 'rev':
-                        n += 1
-                    if cur['method'] == 'zip':
-                        break
-                    cur = cur['recv']
-                return n % 2
-            a, b = revs(z['recv']), revs(z['args'][0]) if z['args'] else 0
-            ok = a == b
-            r5.inst({'fn': name, 'line': z['line'], 'left_reversed': bool(a), 'right_reversed': bool(b)}, ok=ok, kind=(name, z['line'] - fn['line']))
-            if not ok:
-                r5.fail('%s/zip-direction' % name, '%s:%d' % (f, z['line']), 'one side of this zip is reversed and the other is not: components are paired with the wrong partners (e.g. generic arguments swapped)')
-    r5.need(10)
 
     # ---------------- R04.3 equality field coverage
     r3 = ctx.rule('R04.3', 'hand-written XType equality reads every typing-relevant field')
@@ -379,6 +303,39 @@ TRAVERSAL_OK = {
 }
 
 
+def zip_guards(ctx, r2, r5):
+    """R04.2 / R04.5 on the MIR (rules/lib/zips.py): for every Iterator::zip in the type relations, call typing and the type
+    parser, what the two sides iterate is identified (result of which function / which field path), a dominating branch
+    computed from a length of *both* collections is looked for (Vec::len, count, arg_len_range of the spec owning the
+    parameter list), and the two sides must run in the same direction."""
+    from .lib import zips, mirq
+    mir = ctx.mir
+    n = 0
+    for b in mir.bodies:
+        if b.file not in (XT, CSF) and not (b.file == 'src/parser.rs' and ('get_complete_type' in b.nid or 'parse_expr' in b.nid)):
+            continue
+        fn = b.nid.split('::{closure')[0].split('::')[-1]
+        for bb, tm, A, B in zips.zips_of(b):
+            if 'range' in (A[0], B[0]):
+                continue   # a counting range never truncates its partner
+            n += 1
+            guarded = zips.length_tested(b, bb, A[2], B[2])
+            key = (fn, A[0], B[0])
+            listed = key in ZIP_OK or (fn, B[0], A[0]) in ZIP_OK
+            ok = guarded or listed
+            r2.inst({'fn': fn, 'site': mirq.site(b, bb), 'left': A[0], 'right': B[0], 'length_test': guarded, 'listed': listed}, ok=ok, kind=(b.nid, bb))
+            if listed and not guarded:
+                r2.exempted('%s: zip(%s, %s)' % key, ZIP_OK.get(key) or ZIP_OK.get((fn, B[0], A[0])))
+            if not ok:
+                r2.fail('%s/zip/%s~%s' % (fn, A[0], B[0]), mirq.site(b, bb), 'zip of `%s` and `%s` without a dominating length test on both: a shorter list silently truncates the comparison (mismatched arities are accepted)' % (A[0], B[0]))
+            same_dir = A[1] == B[1]
+            r5.inst({'fn': fn, 'site': mirq.site(b, bb), 'left_reversed': A[1], 'right_reversed': B[1]}, ok=same_dir, kind=(b.nid, bb))
+            if not same_dir:
+                r5.fail('%s/zip-direction' % fn, mirq.site(b, bb), 'one side of this zip is reversed and the other is not: components are paired with the wrong partners (e.g. generic arguments swapped)')
+    r2.need(15)
+    r5.need(10)
+
+
 def type_traversals(ctx, r7):
     """resolve_bind and is_unknown recurse over the structure of a type: every variant of XType whose payload mentions a
     type (Arc<XType>, Vec<Arc<XType>>, Bind, a spec struct holding types) must have an explicit arm, or be listed."""
@@ -471,16 +428,21 @@ def bind_merge(ctx, r6):
                         lookups.append((sb, found, base))
         for bb, t in inserts:
             base = map_base(b, t['args'][0])
-            same = [(sb, found) for sb, found, bs in lookups if bs[1] == base[1]]
-            on_found = [(sb, found) for sb, found in same if mirq.dominates(b, found, bb) and found != sb]
-            if not on_found:
-                r6.inst({'body': b.nid, 'site': mirq.site(b, bb), 'after_successful_lookup': False}, ok=True, kind=(b.nid, 'fresh'))
+            same = [(sb, found) for sb, found, bs in lookups if bs[1] == base[1] and mirq.dominates(b, sb, bb)]
+            if not same:
+                r6.inst({'body': b.nid, 'site': mirq.site(b, bb), 'after_lookup': False}, ok=True, kind=(b.nid, 'fresh'))
                 continue
-            n_sites += 1
             val = op_local(t['args'][2]) if len(t['args']) > 2 else None
             aliases, origins = mirq.move_origins(b, val) if val is not None else (set(), [])
+            # the insert itself on the found side: every origin counts; otherwise only the origins computed on the found side
+            insert_on_found = any(mirq.dominates(b, found, bb) and found != sb for sb, found in same)
             bad = []
+            n_found_origins = 0
             for obb, idx, kind, payload in origins:
+                on_found = insert_on_found or any(mirq.dominates(b, found, obb) and found != sb for sb, found in same)
+                if not on_found:
+                    continue
+                n_found_origins += 1
                 ok = False
                 if kind == 'proj':
                     # (x as Continue).0 / (x as Some).0 where x = Try::branch(common_type(..)) or common_type(..)
@@ -495,9 +457,19 @@ def bind_merge(ctx, r6):
                             ok = True
                 if not ok:
                     bad.append((obb, idx, kind))
-            r6.inst({'body': b.nid, 'site': mirq.site(b, bb), 'after_successful_lookup': True, 'value_origins': len(origins), 'all_from_common_type': not bad and bool(origins)}, ok=not bad and bool(origins), kind=(b.nid, 'rebind'))
-            if bad or not origins:
-                obb, idx, kind = bad[0] if bad else (bb, None, 'none')
+            if n_found_origins == 0 and not insert_on_found:
+                # a lookup precedes the insert but no value is computed on its found side: the found case must then not reach
+                # the insert at all (e.g. it returns); if it does, the old binding is overwritten blindly
+                reaches = any(bb in b.reachable(found, avoid={sb}) for sb, found in same)   # within the same lookup (not around a loop)
+                if reaches:
+                    bad.append((bb, None, 'value computed before the lookup'))
+                else:
+                    r6.inst({'body': b.nid, 'site': mirq.site(b, bb), 'after_lookup': True, 'found_side_reaches_insert': False}, ok=True, kind=(b.nid, 'notfound-only'))
+                    continue
+            n_sites += 1
+            r6.inst({'body': b.nid, 'site': mirq.site(b, bb), 'after_lookup': True, 'origins_on_found_side': n_found_origins, 'all_from_common_type': not bad}, ok=not bad, kind=(b.nid, 'rebind'))
+            if bad:
+                obb, idx, kind = bad[0]
                 r6.fail('%s/rebind-without-common_type' % b.nid, mirq.site(b, obb, idx) if idx is not None else mirq.site(b, obb),
                         'an already-bound generic parameter is overwritten with a value that does not come from common_type(existing, new) (%s origin): the two bindings are not unified, so incompatible arguments can bind one parameter' % kind)
     if n_sites < 1:
